@@ -13,6 +13,9 @@ type Server struct {
 }
 
 func NewServer(s *openapi3.Server) (zero Server, _ error) {
+	if s == nil {
+		return zero, fmt.Errorf("server is empty")
+	}
 	variables, err := NewMap[ServerVariable, *openapi3.ServerVariable](s.Variables, NewServerVariable)
 	if err != nil {
 		return zero, fmt.Errorf("new variables: %w", err)
